@@ -99,6 +99,13 @@ Definition degenerate (maxf : bigQ) (r : rule) (fr : list bigQ) (model : list bi
   (match r with WienerLower => BigQ.eq_bool (sumT BQops fr) 0 | _ => false end)
   || existsb (fun v => bqleb (maxf / 4) (babs v)) model.
 
+(* The Hashin-Shtrikman magnitude [scaleHS] already carries the amplification by 1/D and 1/D^2 of the
+   two cancellations (D down to 1e-12 for a trace amount of the reference phase), so the factor in
+   front of it is kept close to the unit round-off: 2^-44 = 512 ulp instead of 2^-36.  With 2^-36 a
+   result wrong by a factor 3 at D = 1e-8 would be inside the tolerance. *)
+Definition rtOf (rt : bigQ) (r : rule) : bigQ :=
+  match r with HashinUpper | HashinLower => rt / 256 | _ => rt end.
+
 (* ---- part A: the public rule functions on a synthetic (p, e) matrix -------------------- *)
 Record implA := { a_wu : list Q; a_wl : list Q; a_hu : list Q; a_hl : list Q; a_lab : list Q }.
 
@@ -106,7 +113,7 @@ Definition checkRule (rt tiny maxf : bigQ) (r : rule) (pw : bigQ -> bigQ) (e : n
            (mob : list (list bigQ)) (fr : list bigQ) (impl : list Q) :=
   let model := applyRule BQops tiny maxf r pw e mob fr in
   let scale := map (fun j => scaleC tiny maxf r pw fr (col BQops j mob)) (seq 0 e) in
-  (degenerate maxf r fr model, bcmpl rt (bl impl) model scale).
+  (degenerate maxf r fr model, bcmpl (rtOf rt r) (bl impl) model scale).
 
 Definition check17a (rt : Q) (tiny maxf : bigQ) (pw : bigQ -> bigQ) (e : nat) (mob : list (list Q)) (fr : list Q) (im : implA) :=
   let rt := bq rt in
@@ -135,7 +142,7 @@ Fixpoint compareSteps (rt tiny maxf : bigQ) (e : nat) (table : list (mobData BQo
       let scale := map (fun j => scaleC tiny maxf (o_rule o) (o_pw o) (d_fracs d') (col BQops j (d_mob d'))) (seq 0 e) in
       let deg := degenerate maxf (o_rule o) (d_fracs d') v in
       (match im with
-       | Some iv => (deg, false, bcmpl rt (bl iv) v scale)
+       | Some iv => (deg, false, bcmpl (rtOf rt (o_rule o)) (bl iv) v scale)
        | None => (deg, true, None)
        end) :: compareSteps rt tiny maxf e table hr mr ir
   | _, _, _ => []
